@@ -2,7 +2,7 @@
 
 Functions under contract (PyMatterSim/static/vector.py, real ASTs re-read on every run):
   participation_ratio, local_vector_alignment, phase_quotient, divergence_curl, vibrability,
-  vector_decomposition_sq.
+  vector_decomposition_sq, vector_fft_corr.
 The postconditions are the documented definitions (docs/vectors.md, repeated in the property statement):
 
   PR            = (sum_i |e_i|^2)^2 / (N sum_i |e_i|^4),  in [1/N, 1] for e != 0,  PR(c e) = PR(e) (c != 0)
@@ -13,6 +13,11 @@ The postconditions are the documented definitions (docs/vectors.md, repeated in 
   vibrability_i = sum_l |e_{l,i}|^2 / omega_l^2
   split         : L = qhat (qhat . F),  T = F - L,  L || q,  L + T = F,  qhat . T = 0 and |F|^2 = |L|^2 + |T|^2
                   for |qhat| = 1 (exactly: |L|^2 + |T|^2 - |F|^2 = 2 (|qhat|^2 - 1) |qhat . F|^2)
+  correlation   : vector_fft_corr over T frames and Q wave vectors (docs/vectors.md section 7): spectra = frame average of the per-frame
+                  averaged tables (-> outputfile.spectra.csv); for H in {FFT, T_FFT, L_FFT}: row n of alldata[H] = the q columns of the
+                  first frame's table followed by time_correlation(X_{H,n})["time_corr"][k] for every lag k, X_{H,n}[t, c] = column H<c> of
+                  frame t's table at wave vector n (C14: origin-averaged normalised autocorrelation), rounded to 8 decimals, lag columns
+                  labelled by the callee's time axis, the same values in outputfile.H.npy
 
 N (particles), CN_i (coordination numbers), the number of modes and the number of wave vectors are symbolic; every
 clause about a symbolic axis is proved at an arbitrary symbolic index.  Sums over symbolic ranges are Σ-terms; facts
@@ -33,9 +38,18 @@ from pyvc.vc import Unit
 MOD = "PyMatterSim.static.vector"
 
 NOT_DECIDED = [
-    "vector_fft_corr (per-q time correlation of FFT / T_FFT / L_FFT over frames): not under contract — its pandas layer (DataFrame += DataFrame, "
-    "pd.concat, DataFrame.T, index assignment, integer column labels from np.arange) is outside the pandas model of pyvc, and it calls "
-    "vector_decomposition_sq once per frame; the statement's clauses about the split are decided on vector_decomposition_sq itself",
+    "vector_fft_corr on trajectories whose number of distinct rounded wave numbers |q| differs between frames (cell changing shape between frames, "
+    "e.g. Lx = Ly in one frame only): precondition `the averaged table has the same number G of rows in every frame`.  pandas aligns "
+    "`spectra += ave_sqresults` on the row labels: rows missing in a later frame become NaN, additional rows of a later frame are dropped silently, "
+    "and rows are paired by their rank among the distinct |q| of each frame, not by wave number (observed on the real code, design_notes/C15.md); NaN is "
+    "outside A1, so the case is excluded by the precondition rather than decided",
+    "vector_fft_corr for a (header, wave vector) whose lag-zero autocorrelation sum_t sum_c |X[t,c]|^2 (first frame only for unevenly spaced frames) is 0 "
+    "(e.g. a purely transverse field at that q for L_FFT): time_correlation divides by it (nan in numpy); excluded by the callee's precondition C(0) != 0, "
+    "which vector_fft_corr inherits as a precondition (assumed at the call, not provable from the inputs), and wave vectors with |q| = 0 (the split divides by |q|)",
+    "vector_fft_corr: the composition `columns of the per-frame tables = round8 of the split of the transform` is the callee contract of "
+    "vector_decomposition_sq (proved for its body by its own unit); inside the proof of vector_fft_corr the tables are arbitrary (uninterpreted), so the "
+    "end-to-end formula is obtained by substituting one contract into the other, not by a single obligation; the per-column dtype of pandas frames "
+    "(int64 zeros replaced by float64 columns) is not tracked, only the values",
     "S = S_L + S_T at the level of the rounded columns: conditional_sq rounds q0..q<d-1>, q, Sq and FFT to 8 decimals before the split, so "
     "|qhat| = 1 and Sq = sum|FFT_c|^2 hold only up to 1e-8; proved instead, exactly and for every input: "
     "|L|^2 + |T|^2 - |F|^2 = 2 (|qhat|^2 - 1) |qhat.F|^2 and qhat.T = (1 - |qhat|^2)(qhat.F), i.e. the Pythagorean identity and the "
@@ -62,6 +76,25 @@ TRUSTED = [
     "position, round(8) = uninterpreted round8 per element (componentwise for complex), groupby(key).mean().reset_index() = one row per distinct "
     "key with group means, to_csv = file-write event",
     "ndarray.reshape(n, -1) of a length d*n column with symbolic n: row-major, missing dimension d",
+    "vector_fft_corr: callee contract of time_correlation (C14.Spec: rank-2 complex condition of shape (T, d), the d components play the role of the "
+    "particles; evenly spaced frames ts_j = ts_0 + j h, T >= 2: origin average; otherwise first frame as only origin; t[k] = (ts_k - ts_0) dt), proved "
+    "for the real body by contracts/C14.py (the two cases used are re-verified with this check); it is a function of the shape and the elements of "
+    "`condition`: at the call in the wave-vector loop the argument is proved equal (shape, dtype, every element) to X_{H,n} and the result is taken at X_{H,n}",
+    "vector_fft_corr: callee contract of vector_decomposition_sq as far as needed (tables with the documented columns, Q rows / G rows, default RangeIndex, "
+    "values uninterpreted functions of (frame, row)); preconditions checked at the call: snapshot is frame n of the trajectory, qvector is the caller's, "
+    "vector = vectors[n], no per-frame output file",
+    "vector_fft_corr preconditions (requires): snapshots.nsnapshots = len(snapshots.snapshots) = T >= 1 = vectors.shape[0], every frame has N particles, Q >= 1 "
+    "wave vectors, timesteps evenly spaced with T >= 2 (cases `linear`) or not all differences equal / a single frame (cases `log`), the number G of distinct "
+    "rounded |q| is the same in every frame, the lag-zero autocorrelation of every (header, wave vector) is non-zero",
+    "wide-frame pandas model (pyvc/libext/C15.py, each item checked on pandas 3.0.6): pd.DataFrame(0, columns=np.arange(Q), index=np.arange(T)) = T x Q block of "
+    "zeros with these labels; `frame[n] = float array` replaces column n by exactly these values (no cast to int64; label must be present and the length must be T: "
+    "obligations); `frame.index = labels` (length obligation); `.T`; pd.concat([a, b], axis=1) aligns rows BY LABEL - modelled only for identical indexes, which is "
+    "an obligation at the call (row label i at position i in every input), result = columns side by side with RangeIndex; `.round(8)` = uninterpreted round8 per "
+    "element; `.values` = named columns followed by the block; np.save(path, array) = file-write event; DataFrame arithmetic `0 + df`, `df + df`, `df / n` "
+    "element-wise for frames with the same columns, the same length (obligation) and the default RangeIndex (pandas' in-place `+=` reindexes the result to the left "
+    "frame: the same values under that obligation)",
+    "the written loop invariants of vector_fft_corr are checked by init/step obligations generated from executions of the real loop bodies; the post-state of a loop "
+    "is the state after its last iteration executed from the invariant state (the induction principle over the iteration count is the trusted rule)",
 ]
 
 
@@ -978,11 +1011,10 @@ class VectorDecompositionSq(Unit):
         res = out.value
         calls = getattr(ctx.interp, "c15_csq_calls", [])
         ok = isinstance(res, tuple) and len(res) == 2 and all(isinstance(x, Ref) and x.kind == "df" for x in res) and len(calls) >= 1
-        want_order = [f"q{c}" for c in range(d)] + ["q", "Sq"] + [f"FFT{c}" for c in range(d)] + [f"T_FFT{c}" for c in range(d)] + ["Sq_T"] \
-            + [f"L_FFT{c}" for c in range(d)] + ["Sq_L"]
+        want_order = _vf_order(d)       # (the same column lists are what the callee contract used by vector_fft_corr returns: FrameTables)
         if ok:
             fr, av = PM.df_content(res[0]), PM.df_content(res[1])
-            ok = fr["order"] == want_order and A.dim_eq_syntactic(fr["n"], Q) and av["order"] == ["q", "Sq", "Sq_T", "Sq_L"]
+            ok = fr["order"] == want_order and A.dim_eq_syntactic(fr["n"], Q) and av["order"] == AVE_COLS
         yield "shape:frames-and-columns", bool(ok)
         if not ok:
             return
@@ -1229,12 +1261,753 @@ def _replay_nb(qualname, case, clause, model, seed):
     return {"ran": True, "failed": False, "searched": tried, "detail": "real code satisfies every clause on the model inputs and the seeded inputs"}
 
 
-UNITS = [ParticipationRatio(), LocalAlignment(), PhaseQuotient(), DivergenceCurl(), Vibrability(), VectorDecompositionSq()]
+
+# ================================================================================================
+# vector_fft_corr
+
+VDSQ = "PyMatterSim.static.vector.vector_decomposition_sq"
+TCORR = "PyMatterSim.dynamic.time_corr.time_correlation"
+HEADERS = ["FFT", "T_FFT", "L_FFT"]
+CALL_V = ["call:vector_decomposition_sq:snapshot=frame-n-of-the-trajectory", "call:vector_decomposition_sq:qvector=the-wave-vector-array",
+          "call:vector_decomposition_sq:vector=vectors[n]", "call:vector_decomposition_sq:no-per-frame-file"]
+CALL_T = ["call:time_correlation:snapshots=the-trajectory", "call:time_correlation:condition=(T,d)-columns-of-this-header-at-wave-vector-n-over-frames",
+          "call:time_correlation:dt", "call:time_correlation:no-output-file", "call:time_correlation:frame-spacing-as-assumed"]
+AVE_COLS = ["q", "Sq", "Sq_T", "Sq_L"]
+
+
+def _vf_order(d):
+    return [f"q{c}" for c in range(d)] + ["q", "Sq"] + [f"FFT{c}" for c in range(d)] + [f"T_FFT{c}" for c in range(d)] + ["Sq_T"] \
+        + [f"L_FFT{c}" for c in range(d)] + ["Sq_L"]
+
+
+class FrameTables:
+    """What vector_decomposition_sq returns for frame s of the trajectory, as far as vector_fft_corr needs it: a table with Q rows and the
+    columns q0..q<d-1>, q, Sq, FFT0.., T_FFT0.., Sq_T, L_FFT0.., Sq_L (FFT/T_FFT/L_FFT complex) and an averaged table with the columns
+    q, Sq, Sq_T, Sq_L.  The VALUES are whatever the callee returns: uninterpreted TAB_<column>(s, n) (real and imaginary part for the
+    complex columns) and AVE(s, g, column).  Their relation to the transform of frame s (q_c = round8(2 pi n_c / L_c), FFT = round8(F),
+    L_FFT = round8(qhat (qhat . F)), T_FFT = round8(F - L), Sq_L/Sq_T = round8(|.|^2), group means over equal rounded |q|) is the
+    callee's own contract, proved for its body by the unit VectorDecompositionSq above (clauses a-d, f) and not needed here: everything
+    proved about vector_fft_corr holds for any tables.  The averaged table has G rows in every frame (precondition of vector_fft_corr,
+    see NOT_DECIDED)."""
+
+    def __init__(self, d, Q, G):
+        self.d, self.Q, self.G = d, Q, G
+        I, R = z3.IntSort(), z3.RealSort()
+        self.fn = {}
+        for nm in _vf_order(d):
+            if "FFT" in nm:
+                self.fn[nm] = (z3.Function(f"TAB_{nm}_re", I, I, R), z3.Function(f"TAB_{nm}_im", I, I, R))
+            else:
+                self.fn[nm] = z3.Function(f"TAB_{nm}", I, I, R)
+        self.AVE = z3.Function("AVE", I, I, I, R)
+
+    def col(self, name):
+        """(s, n) -> value of column `name` of frame s's table at row n"""
+        f = self.fn[name]
+        if isinstance(f, tuple):
+            return lambda s, n: sv.Cx(sv.SV(f[0](sv.znum(s), sv.znum(n))), sv.SV(f[1](sv.znum(s), sv.znum(n))))
+        return lambda s, n: sv.SV(f(sv.znum(s), sv.znum(n)))
+
+    def dtype(self, name):
+        return "complex" if "FFT" in name else "float"
+
+    def table(self, s):
+        from pyvc import pandas_model as PM
+        order = _vf_order(self.d)
+        cols = {nm: A.new_arr((self.Q,), (lambda idx, f=self.col(nm): f(s, idx[0])), self.dtype(nm)) for nm in order}
+        return PM.new_df(cols, order, self.Q)
+
+    def ave(self, s, g, ci):
+        return sv.SV(self.AVE(sv.znum(s), sv.znum(g), z3.IntVal(ci)))
+
+    def ave_table(self, fn):
+        from pyvc import pandas_model as PM
+        cols = {nm: A.new_arr((self.G,), (lambda idx, ci=ci: fn(idx[0], ci)), "float") for ci, nm in enumerate(AVE_COLS)}
+        return PM.new_df(cols, AVE_COLS, self.G)
+
+
+def _df_eq_goals(got, want, order, n):
+    """[z3 goals]: `got` is a DataFrame with the columns `order`, n rows, and at an arbitrary row the values of `want` (both in cur())"""
+    from pyvc import pandas_model as PM
+    from pyvc.interp import Ref
+    if not (isinstance(got, Ref) and got.kind == "df"):
+        return [z3.BoolVal(False)]
+    g, w = PM.df_content(got), PM.df_content(want)
+    if list(g["order"]) != list(order):
+        return [z3.BoolVal(False)]
+    goals = []
+    if not A.dim_eq_syntactic(g["n"], n):
+        goals.append(sv.zb(sv.cmp("==", g["n"], n)))
+    b = sv.fresh_int("row")
+    inr = sv.and_(sv.cmp(">=", b, 0), sv.cmp("<", b, n))
+    for c in order:
+        x, y = g["cols"][c].get((b,)), w["cols"][c].get((b,))
+        goals.append(sv.zb(sv.implies(inr, _cx_eq(x, y))))
+    return goals
+
+
+def _vfc_loops():
+    """(lineno of the frame loop, lineno of the per-wave-vector loop nested in the header loop) of vector_fft_corr"""
+    import ast
+    node = load_module(MOD).defs["vector_fft_corr"]
+    top = [n for n in node.body if isinstance(n, ast.For)]
+    first = top[0].lineno if top else None
+    inner = None
+    for outer in top[1:]:
+        for n in ast.walk(outer):
+            if isinstance(n, ast.For) and n is not outer:
+                inner = n.lineno
+                break
+        if inner:
+            break
+    return first, inner
+
+
+class VectorFftCorr(Unit):
+    """vector_fft_corr(snapshots, qvector, vectors, dt, outputfile): frame-averaged spectra + per-wave-vector time correlation of the
+    FFT / T_FFT / L_FFT columns.  Callee contracts: vector_decomposition_sq (this module), time_correlation (C14.Spec)."""
+    module = MOD
+    qualname = "vector_fft_corr"
+    prop = "C15"
+    timeout = 5
+
+    def cases(self):
+        return [f"d={d}/{sp}/{o}" for d in (2, 3) for sp in ("linear", "log") for o in ("file",)] + ["d=2/linear/default-name"]
+
+    def setup(self, ctx, case):
+        from contracts import C14
+        from contracts.common import Traj
+        from pyvc.interp import Frame, Ref
+        from pyvc.loops import _SideGoal, AppendedSeq
+        from pyvc.pandas_model import df_content
+        from pyvc.state import Content, cur, use_state
+        from pyvc.libext.C15 import wide_content, _is_wide
+        d = int(case[2])
+        spacing = case.split("/")[1]
+        tr = Traj(ctx, d)
+        T, N = tr.T, tr.N
+        Q, G = ctx.int("Q"), ctx.int("G")
+        ctx.assume(Q >= 1)
+        ctx.assume(sv.and_(G >= 1, sv.cmp("<=", G, Q)))
+        ts0, h = ctx.int("ts0"), ctx.int("h")
+        TS = tr.TS
+        tsf = lambda j: sv.SV(TS(sv.znum(j)))
+        w = ctx.int("w")
+        if spacing == "linear":
+            # evenly spaced frames: ts_j = ts0 + j h, at least two frames
+            ctx.assume(T >= 2)
+            ctx.array_fact(TS.name(), lambda j: TS(j) == sv.znum(ts0) + j * sv.znum(h))
+        else:
+            ctx.assume(sv.or_(sv.cmp("==", T, 1),
+                              sv.and_(w >= 0, sv.cmp("<", w, sv.sub(T, 1)),
+                                      sv.cmp("!=", sv.sub(tsf(sv.add(w, 1)), tsf(w)), sv.sub(tsf(1), tsf(0))))))
+        V = ctx.array("v", (T, N, d), "float", origin="argument vectors")
+        QV = ctx.array("qvector", (Q, d), "int", origin="argument qvector")
+        dt = ctx.real("dt")
+        snaps = tr.snapshots()
+        of = "" if case.endswith("default-name") else "corr"
+        FT = FrameTables(d, Q, G)
+        I = z3.IntSort()
+        st0 = ctx.state
+        fname = f"{MOD}.{self.qualname}"
+
+        # ---------------------------------------------------------------- callee contract: vector_decomposition_sq
+        def vdsq(interp, args, kwargs):
+            """requires: snapshot is frame s of the trajectory; qvector is the caller's wave-vector array; vector = vectors[s] (N, d);
+            outputfile = "" (nothing is written per frame); ensures: (table of frame s, averaged table of frame s), see FrameTables"""
+            a = dict(zip(["snapshot", "qvector", "vector", "outputfile"], args))
+            a.update(kwargs)
+            snap = a.get("snapshot")
+            pos = snap.content.get("positions") if isinstance(snap, Ref) and snap.kind == "obj" else None
+            s = None
+            if isinstance(pos, A.Arr) and pos.ndim == 2:
+                i0, c0 = sv.fresh_int("pi"), sv.fresh_int("pc")
+                t = pos.get((i0, c0))
+                if isinstance(t, sv.SV) and z3.is_app(t.t) and t.t.decl().name() == tr.POS.name() and t.t.arg(1).eq(i0.t) and t.t.arg(2).eq(c0.t):
+                    s = sv.wrap(t.t.arg(0))
+            if s is None:
+                _call_req(False, CALL_V[0])
+                raise sv.EngineError("vector_decomposition_sq summary: snapshot argument is not a frame of the trajectory")
+            bl = snap.content.get("boxlength")
+            c1 = sv.fresh_int("bc")
+            okb = isinstance(bl, A.Arr) and bl.ndim == 1 and A.dim_conc(bl.shape[0]) and bl.shape[0] == d
+            _call_req(sv.and_(sv.cmp(">=", s, 0), sv.cmp("<", s, T), sv.cmp("==", snap.content.get("nparticle"), N),
+                              sv.implies(sv.and_(sv.cmp(">=", c1, 0), sv.cmp("<", c1, d)), sv.cmp("==", bl.get((c1,)), tr.bl(s, c1))) if okb else False), CALL_V[0])
+            _same_array_req(a.get("qvector"), QV, CALL_V[1])
+            row = A.new_arr((N, d), lambda idx: V.get((s, idx[0], idx[1])), "float")
+            _same_array_req(a.get("vector"), row, CALL_V[2])
+            _call_req(a.get("outputfile", "") == "", CALL_V[3])
+            return (FT.table(s), FT.ave_table(lambda g, ci: FT.ave(s, g, ci)))
+
+        # ---------------------------------------------------------------- callee contract: time_correlation (C14)
+        tc_calls = []
+
+        def tc_table(cond):
+            """C14 contract for a rank-2 complex condition of shape (T, d) (the d components are the `particles` of the callee):
+            t[k] = (ts_k - ts_0) dt, time_corr[k] = C(k)/C(0)"""
+            from pyvc import pandas_model as PM
+            spec = C14.Spec(cond, 2, None, T, d)
+            c0 = sv.SV(spec.C(0, spacing))
+            tcol = A.new_arr((T,), lambda idx: sv.mul(sv.to_real(sv.sub(tsf(idx[0]), tsf(0))), dt), "float")
+            ccol = A.new_arr((T,), lambda idx: sv.div(sv.SV(spec.C(idx[0], spacing)), c0), "float")
+            return PM.new_df({"t": tcol, "time_corr": ccol}, ["t", "time_corr"], T), c0
+
+        def tcorr(interp, args, kwargs):
+            a = dict(zip(["snapshots", "condition", "dt", "outputfile"], args))
+            a.update(kwargs)
+            st = cur()
+            _call_req(getattr(a.get("snapshots"), "sid", None) == snaps.sid, CALL_T[0])
+            cond = a.get("condition")
+            ok = isinstance(cond, A.Arr) and cond.ndim == 2 and cond.dtype == "complex" and A.dim_conc(cond.shape[1]) and cond.shape[1] == d
+            if not ok:
+                _call_req(False, CALL_T[1])
+                raise sv.EngineError("time_correlation summary: condition is not a complex (T, d) array")
+            exp = inp.get("expect")
+            if exp is not None:
+                # inside the wave-vector loop of header H at wave vector n: the argument must be condition_{H,n}; the callee's result is
+                # then the contract value for condition_{H,n} (the contract is a function of the array's shape and elements)
+                want = X_of(exp[0], exp[1])
+                _same_array_req(cond, want, CALL_T[1])
+                cond = want
+            else:
+                _call_req(sv.cmp("==", cond.shape[0], T), CALL_T[1])
+            _call_req(sv.cmp("==", a.get("dt", sv.to_frac(0.002)), dt), CALL_T[2])
+            _call_req(a.get("outputfile", "") == "", CALL_T[3])
+            # spacing of the frames as the callee sees it (its contract has one clause per kind of spacing)
+            j = sv.fresh_int("tj")
+            if spacing == "linear":
+                _call_req(sv.and_(sv.cmp(">=", T, 2), sv.implies(sv.and_(sv.cmp(">=", j, 0), sv.cmp("<", j, T)), sv.cmp("==", tsf(j), sv.add(ts0, sv.mul(j, h))))),
+                          CALL_T[4])
+            else:
+                _call_req(sv.or_(sv.cmp("==", T, 1), sv.and_(w >= 0, sv.cmp("<", w, sv.sub(T, 1)),
+                                                          sv.cmp("!=", sv.sub(tsf(sv.add(w, 1)), tsf(w)), sv.sub(tsf(1), tsf(0))))), CALL_T[4])
+            df, c0 = tc_table(cond)
+            # precondition of vector_fft_corr (statement: the correlation is normalised by its lag-zero value): instance for this call
+            st.assume(sv.cmp("!=", c0, 0))
+            tc_calls.append(1)
+            return df
+
+        def X_of(H, n):
+            """condition_{H,n}: (T, d) complex array, X[t, c] = column H<c> of frame t's table at row n"""
+            fs = [FT.col(f"{H}{c}") for c in range(d)]
+            return A.new_arr((T, d), lambda idx: A._pick([sv.as_cx(f(idx[0], n)) for f in fs], idx[1]) if not sv.is_conc(idx[1]) else sv.as_cx(fs[int(idx[1])](idx[0], n)), "complex")
+
+        ctx.interp.summaries[VDSQ] = vdsq
+        ctx.interp.summaries[TCORR] = tcorr
+
+        # ---------------------------------------------------------------- written invariant of the frame loop
+        def side(kind, goals, s2, where, clause=None, sigma=False):
+            for g in goals:
+                sg = _SideGoal(kind, g, s2.all_assumptions(), where)
+                if clause:
+                    sg.clause = clause
+                # the invariants follow by linear arithmetic + congruence (both sides are built from the same callee-contract terms):
+                # one attempt with products as uninterpreted functions, no fall-back chain (a false goal must fail fast)
+                sg.opts = {"abstract_nl": True, "abstract_only": True}
+                if not sigma:       # no Σ-term has to be unfolded: no Σ-axiom instances in the query
+                    sg.opts.update({"unfold": False, "ext": False, "rounds": 1})
+                st0.side.append(sg)
+
+        def adopt(st, frame, s4, f4):
+            """the current path continues from the forked state s4 / frame f4"""
+            for attr in ("heap", "pc", "events", "decisions", "trace", "fresh", "where"):
+                setattr(st, attr, getattr(s4, attr))
+            frame.env.clear()
+            frame.env.update(f4.env)
+
+        def body_run(interp, s, frame, st, item_fn, kv, lo, hi, prepare, drop, what):
+            """one execution of the loop body at index kv in a fork of st; `prepare(fr, st2)` installs the invariant state; the locals in
+            `drop` (assigned by the body, not described by the invariant) are unbound first, so that a read before the assignment is not
+            a normal path"""
+            fr = Frame(frame.module, dict(frame.env), frame.fname)
+            st2 = st.fork()
+            st2.pc = list(st.pc) + [sv.zb(sv.cmp(">=", kv, lo)), sv.zb(sv.cmp("<", kv, hi))]
+            with use_state(st2):
+                for nm in drop:
+                    fr.env.pop(nm, None)
+                prepare(fr, st2)
+                interp.assign(s.target, item_fn(kv), fr)
+                outs = interp.exec_block_paths(s.body, fr, st2)
+            normal = [(f2, s2) for f2, s2, out in outs if out[0] == "normal"]
+            if len(outs) != 1 or len(normal) != 1:
+                raise sv.EngineError(f"vector_fft_corr {what}: body does not have a single normal path ({[o[2] for o in outs]})")
+            return normal[0]
+
+        def frame_loop(interp, s, frame, st, lo, hi, item_fn):
+            """after k >= 1 frames:  <accumulator> = sum_{t<k} (averaged table of frame t)  (a DataFrame, columns q, Sq, Sq_T, Sq_L, G rows),
+            <list> = [table of frame 0, ..., table of frame k-1].  The accumulator (local that is 0 before the loop and a DataFrame after
+            the first iteration) and the list (empty before, changed by the first iteration) are found by executing the first iteration."""
+            from pyvc.loops import _assigned_names
+            import ast as _ast
+            where = f"{frame.fname}:{s.lineno}"
+            what = "frame loop"
+            if not (sv.is_conc(lo) and lo == 0):
+                raise sv.EngineError("vector_fft_corr frame loop: iteration space does not start at 0")
+            if not interp.decide(sv.cmp(">=", hi, 2)):
+                # a single frame: the loop is its first iteration (executed as it is)
+                interp.assign(s.target, item_fn(0), frame)
+                interp.exec_body_single(s.body, frame)
+                return
+            targets = _assigned_names([_ast.Assign(targets=[s.target], value=_ast.Constant(0))])
+            assigned = _assigned_names(s.body)
+            pre_env, pre_heap = dict(frame.env), dict(st.heap)
+            f2, s2 = body_run(interp, s, frame, st, item_fn, 0, lo, hi, lambda fr, st2: None, (), what)
+            is_df = lambda v: isinstance(v, Ref) and v.kind == "df"
+            acc = [nm for nm, v in pre_env.items() if nm not in targets and isinstance(v, int) and not isinstance(v, bool) and v == 0 and is_df(f2.env.get(nm))]
+            lists = [sid for sid, c in pre_heap.items() if c.kind == "list" and isinstance(c.data, tuple) and len(c.data) == 0 and s2.heap.get(sid) is not c]
+            others = [sid for sid, c in pre_heap.items() if s2.heap.get(sid) is not c and sid not in lists]
+            if len(acc) != 1 or len(lists) != 1 or others:
+                raise sv.EngineError(f"vector_fft_corr frame loop: expected one accumulator and one list (found {acc}, {len(lists)} lists, {len(others)} other cells written)")
+            acc, lsid = acc[0], lists[0]
+            drop = [nm for nm in assigned if nm != acc and nm not in targets]
+            seq_fn = lambda t: FT.table(t)
+
+            def inv_spectra(k):
+                return FT.ave_table(lambda g, ci: Sum(0, k, lambda t: FT.ave(t, g, ci)))
+
+            def install(k):
+                def prepare(fr, st2):
+                    fr.env[acc] = inv_spectra(k)
+                    c = st2.heap[lsid]
+                    st2.heap[lsid] = Content("list", A.SeqVal(k, seq_fn), c.meta)
+                return prepare
+
+            def check(f2, s2, kv, kind):
+                nxt = A.simp(sv.add(kv, 1))
+                with use_state(s2):
+                    side(kind, _df_eq_goals(f2.env.get(acc), inv_spectra(nxt), AVE_COLS, G), s2, where, "spectra:loop-invariant", sigma=True)
+                    c = s2.heap[lsid].data
+                    if sv.is_conc(kv):
+                        okl = isinstance(c, tuple) and len(c) == 1
+                        last = c[0] if okl else None
+                    else:
+                        okl = isinstance(c, AppendedSeq) and c.base_fn is seq_fn and A.dim_eq_syntactic(c.n, kv)
+                        last = c.last if okl else None
+                    goals = _df_eq_goals(last, FT.table(kv), _vf_order(d), Q) if okl else [z3.BoolVal(False)]
+                    side(kind, goals, s2, where, "vectors_fft:loop-invariant")
+                    bad = [sid for sid, c0 in pre_heap.items() if s2.heap.get(sid) is not c0 and sid != lsid]
+                    if bad:
+                        raise sv.EngineError("vector_fft_corr frame loop: the body writes a cell the invariant does not describe")
+            check(f2, s2, lo, "loop-init")
+            k = sv.fresh_int("k")
+            st.pc.append(sv.zb(sv.cmp(">=", k, 1)))     # (only constrains the fresh k)
+            f3, s3 = body_run(interp, s, frame, st, item_fn, k, lo, hi, install(k), drop, what)
+            check(f3, s3, k, "loop-step")
+            # post-state: the last iteration (index hi - 1 >= 1) from the invariant state, then the invariant at hi
+            last = A.simp(sv.sub(hi, 1))
+            f4, s4 = body_run(interp, s, frame, st, item_fn, last, lo, hi, install(last), drop, what)
+            adopt(st, frame, s4, f4)
+            frame.env[acc] = inv_spectra(hi)
+            c = st.heap[lsid]
+            st.heap[lsid] = Content("list", A.SeqVal(hi, seq_fn), c.meta)
+
+        # ---------------------------------------------------------------- written invariant of the wave-vector loop (per header)
+        def tc_col(H, n):
+            """the callee's table for condition_{H,n}"""
+            df, _ = tc_table(X_of(H, n))
+            return df
+
+        def q_loop(interp, s, frame, st, lo, hi, item_fn):
+            """after k wave vectors:  <wide frame>[:, j] = time_correlation(condition_{H,j})["time_corr"] for j < k, unchanged for j >= k.
+            H = the header of the enclosing iteration, the wide frame = the frame with one column per wave vector (both found in the
+            locals by their values: the only header string, the only wide frame without named columns)."""
+            from pyvc.loops import _assigned_names
+            import ast as _ast
+            where = f"{frame.fname}:{s.lineno}"
+            what = "wave-vector loop"
+            Hs = [v for v in frame.env.values() if isinstance(v, str) and v in HEADERS]
+            cals = [v for v in frame.env.values() if _is_wide(v) and not wide_content(v)["pre"]["order"]]
+            if len(set(Hs)) != 1 or len({c.sid for c in cals}) != 1 or not (sv.is_conc(lo) and lo == 0):
+                raise sv.EngineError("vector_fft_corr wave-vector loop: unexpected pre-state (one header, one wide frame expected)")
+            H, cal = Hs[0], cals[0]
+            targets = _assigned_names([_ast.Assign(targets=[s.target], value=_ast.Constant(0))])
+            drop = [nm for nm in _assigned_names(s.body) if nm not in targets]
+            pre_heap = dict(st.heap)
+            cell0 = st.heap[cal.sid]
+            blk = wide_content(cal)["block"]
+            pre_block = blk.reader()
+            tcv = lambda n, t: df_content(tc_col(H, n))["cols"]["time_corr"].get((t,))
+
+            def inv_block(k):
+                return lambda idx: sv.ite(sv.cmp("<", idx[1], k), lambda: tcv(idx[1], idx[0]), lambda: pre_block(idx))
+
+            def install(k):
+                def prepare(fr, st2):
+                    c = st2.heap[blk.sid]
+                    st2.heap[blk.sid] = Content("arr", A._memo(inv_block(k)), c.meta)
+                return prepare
+
+            def run(kv, prepare, dr):
+                inp["expect"] = (H, kv)
+                try:
+                    return body_run(interp, s, frame, st, item_fn, kv, lo, hi, prepare, dr, what)
+                finally:
+                    inp["expect"] = None
+
+            def check(f2, s2, kv, kind):
+                nxt = A.simp(sv.add(kv, 1))
+                clause = f"{H}:cal_data:loop-invariant"
+                with use_state(s2):
+                    bad = [sid for sid, c0 in pre_heap.items() if s2.heap.get(sid) is not c0 and sid != blk.sid]
+                    if bad:
+                        raise sv.EngineError("vector_fft_corr wave-vector loop: the body writes a cell the invariant does not describe")
+                    t, j = sv.fresh_int("t"), sv.fresh_int("j")
+                    inr = sv.and_(sv.cmp(">=", t, 0), sv.cmp("<", t, T), sv.cmp(">=", j, 0), sv.cmp("<", j, Q))
+                    got = s2.heap[blk.sid].data((t, j))
+                    if sv.is_conc(kv):
+                        # inv(lo + 1) at column j >= 0: j < lo + 1 iff j == lo (stated with the concrete column so that the callee's
+                        # Σ-terms are the ones of the call with n = lo)
+                        want = sv.ite(sv.cmp("==", j, kv), lambda: tcv(kv, t), lambda: pre_block((t, j)))
+                    else:
+                        want = inv_block(nxt)((t, j))
+                    side(kind, [sv.zb(sv.implies(inr, sv.cmp("==", got, want)))], s2, where, clause)
+            f2, s2 = run(lo, lambda fr, st2: None, ())
+            check(f2, s2, lo, "loop-init")
+            k = sv.fresh_int("k")
+            st.pc.append(sv.zb(sv.cmp(">=", k, 1)))     # (only constrains the fresh k)
+            f3, s3 = run(k, install(k), drop)
+            check(f3, s3, k, "loop-step")
+            # post-state: the last iteration (index hi - 1 >= 0) from the invariant state, then the invariant at hi
+            last = A.simp(sv.sub(hi, 1))
+            f4, s4 = run(last, install(last), drop)
+            adopt(st, frame, s4, f4)
+            c = st.heap[blk.sid]
+            st.heap[blk.sid] = Content("arr", A._memo(inv_block(hi)), c.meta)
+            st.events.append(("store", blk.sid, where, list(st.pc)))
+
+        l1, l2 = _vfc_loops()
+        if l1 is not None:
+            ctx.interp.loop_hints[(fname, "for", l1)] = frame_loop
+        if l2 is not None:
+            ctx.interp.loop_hints[(fname, "for", l2)] = q_loop
+        inp = dict(d=d, T=T, N=N, Q=Q, G=G, V=V, QV=QV, dt=dt, snaps=snaps, of=of, FT=FT, tsf=tsf, spacing=spacing, expect=None,
+                   X_of=X_of, tc_col=tc_col, tc_calls=tc_calls, watch=[V.sid, QV.sid])
+        kwargs = {"dt": dt}
+        if of:
+            kwargs["outputfile"] = of
+        return [snaps, QV, V], kwargs, inp
+
+    def clause_names(self, case):
+        names = ["returns-dict-with-exactly-the-keys-FFT,T_FFT,L_FFT", "spectra=frame-average-of-the-averaged-tables", "spectra:csv-file",
+                 "spectra:loop-invariant", "vectors_fft:loop-invariant", "frame:inputs-not-written"] + CALL_V + CALL_T
+        for H in HEADERS:
+            names += [f"{H}:frame-shape-and-columns", f"{H}:q-columns=round8(frame-0-table)", f"{H}:lag-columns=round8(time_correlation(condition_n).time_corr)",
+                      f"{H}:lag-column-labels=t-column-of-the-callee", f"{H}:npy-file=values", f"{H}:cal_data:loop-invariant"]
+        return names
+
+    def ensures(self, ctx, case, inp, out):
+        from pyvc.interp import Ref
+        from pyvc.libext.C15 import _is_wide, wide_content
+        from pyvc.pandas_model import df_content
+        d, T, Q, G, FT, of = inp["d"], inp["T"], inp["Q"], inp["G"], inp["FT"], inp["of"]
+        res = out.value
+        # every clause follows from the invariants by linear arithmetic + congruence: one attempt with products as uninterpreted
+        # functions and without Σ-axiom instances, no fall-back chain (a false clause fails fast and the replay decides)
+        FAST = {"abstract_nl": True, "abstract_only": True, "solver_opts": {"unfold": False, "ext": False, "rounds": 1}}
+        ok = isinstance(res, Ref) and res.kind == "dict" and list(res.content.keys()) == HEADERS
+        yield "returns-dict-with-exactly-the-keys-FFT,T_FFT,L_FFT", bool(ok)
+        # ---- spectra: the frame written to outputfile + ".spectra.csv"
+        csvs = [t for t in out.state.trace if t and t[0] == "to_csv"]
+        good = len(csvs) == 1 and csvs[0][1] == of + ".spectra.csv" and list(csvs[0][3]) == AVE_COLS and csvs[0][4] == "%.8f"
+        yield "spectra:csv-file", bool(good)
+        g = ctx.int("g")
+        if good:
+            ing = sv.and_(sv.cmp(">=", g, 0), sv.cmp("<", g, G))
+            eqs = [sv.cmp("==", csvs[0][5], G)]
+            for ci, nm in enumerate(AVE_COLS):
+                want = sv.div(Sum(0, T, lambda t: FT.ave(t, g, ci)), T)
+                eqs.append(sv.implies(ing, sv.cmp("==", csvs[0][2][nm].get((g,)), want)))
+            # (single-frame path: sum_{t<T} with T = 1 has to be unfolded, so the Σ-axiom instances stay in this query)
+            yield "spectra=frame-average-of-the-averaged-tables", sv.and_(*eqs), {"abstract_nl": True, "abstract_only": True}
+        else:
+            yield "spectra=frame-average-of-the-averaged-tables", False
+        stores = [e for e in out.state.events if e[0] == "store" and e[1] in inp["watch"]]
+        yield "frame:inputs-not-written", len(stores) == 0
+        if not ok:
+            return
+        n, k = ctx.int("n"), ctx.int("k")
+        inn = sv.and_(sv.cmp(">=", n, 0), sv.cmp("<", n, Q))
+        ink = sv.and_(sv.cmp(">=", k, 0), sv.cmp("<", k, T))
+        saves = [t for t in out.state.trace if t and t[0] == "np.save"]
+        qcols = [f"q{c}" for c in range(d)] + ["q"]
+        r8 = lambda v: sv.round_dec(v, 8)
+        for hi_, H in enumerate(HEADERS):
+            fr = res.content[H]
+            shape_ok = _is_wide(fr)
+            if shape_ok:
+                c = wide_content(fr)
+                shape_ok = c["pre"]["order"] == qcols and c["index"] is None and c["block"] is not None and A.dim_eq_syntactic(c["n"], Q) \
+                    and A.dim_eq_syntactic(c["block"].shape[0], Q) and A.dim_eq_syntactic(c["block"].shape[1], T) and A.dim_eq_syntactic(c["labels"].shape[0], T)
+            yield f"{H}:frame-shape-and-columns", bool(shape_ok)
+            if not shape_ok:
+                continue
+            yield (f"{H}:q-columns=round8(frame-0-table)",
+                   sv.implies(inn, sv.and_(*[sv.cmp("==", c["pre"]["cols"][nm].get((n,)), r8(FT.col(nm)(0, n))) for nm in qcols])), FAST)
+            want_tc = df_content(inp["tc_col"](H, n))["cols"]
+            yield (f"{H}:lag-columns=round8(time_correlation(condition_n).time_corr)",
+                   sv.implies(sv.and_(inn, ink), sv.cmp("==", c["block"].get((n, k)), r8(want_tc["time_corr"].get((k,))))), FAST)
+            tk = sv.mul(sv.to_real(sv.sub(inp["tsf"](k), inp["tsf"](0))), inp["dt"])
+            yield f"{H}:lag-column-labels=t-column-of-the-callee", sv.implies(ink, sv.cmp("==", c["labels"].get((k,)), tk)), FAST
+            mine = [t for t in saves if t[1] == of + "." + H + ".npy"]
+            if len(mine) == 1 and len(saves) == 3 and isinstance(mine[0][2], A.Arr) and mine[0][2].ndim == 2:
+                arr = mine[0][2]
+                j = ctx.int("j")
+                p = d + 1
+                wantv = sv.ite(sv.cmp("<", j, p), lambda: A._pick([c["pre"]["cols"][nm].get((n,)) for nm in qcols], sv.minv(j, p - 1)),
+                               lambda: c["block"].get((n, A.simp(sv.sub(j, p)))))
+                inj = sv.and_(sv.cmp(">=", j, 0), sv.cmp("<", j, sv.add(p, T)))
+                yield (f"{H}:npy-file=values", sv.and_(sv.cmp("==", arr.shape[0], Q), sv.cmp("==", arr.shape[1], sv.add(p, T)),
+                                                       sv.implies(sv.and_(inn, inj), sv.cmp("==", arr.get((n, j)), wantv))), FAST)
+            else:
+                yield f"{H}:npy-file=values", False
+
+    def replay(self, case, clause, model, seed):
+        return _replay_fft_corr(case, clause, model, seed)
+
+
+def _call_req(cond, clause, assume=True):
+    """precondition of a callee contract at a call site: a NAMED obligation of the unit (proved under the path condition of the call,
+    reported as `<unit>:<clause>`), assumed afterwards like every checked requirement (unless assume=False: nothing later relies on it)"""
+    from pyvc.loops import _SideGoal
+    from pyvc.state import cur
+    st = cur()
+    if isinstance(cond, bool):
+        g = z3.BoolVal(cond)
+    else:
+        g = sv.zb(cond)
+    sg = _SideGoal("call-site:" + clause, g, st.all_assumptions(), st.where)
+    sg.clause = clause
+    sg.opts = {"unfold": False, "ext": False, "rounds": 1}      # argument checks: no Σ-term has to be unfolded
+    st.side.append(sg)
+    if assume and not isinstance(cond, bool):
+        st.assume(cond)
+
+
+def _same_array_req(a, b, clause):
+    """call-site obligation: array argument `a` has the rank, dtype, shape and, at an arbitrary index, the elements of `b`"""
+    if not isinstance(a, A.Arr) or a.ndim != b.ndim or a.dtype != b.dtype:
+        _call_req(False, clause)
+        return
+    if a.sid == b.sid and a.view is None and b.view is None:
+        _call_req(True, clause)
+        return
+    idx, conds = [], []
+    for k in range(b.ndim):
+        if not A.dim_eq_syntactic(a.shape[k], b.shape[k]):
+            _call_req(sv.cmp("==", a.shape[k], b.shape[k]), clause)
+        t = sv.fresh_int("ai")
+        idx.append(t)
+        conds.append(sv.and_(sv.cmp(">=", t, 0), sv.cmp("<", t, b.shape[k])))
+    _call_req(sv.implies(sv.and_(*conds), _cx_eq(a.get(tuple(idx)), b.get(tuple(idx)))), clause, assume=False)
+
+
+def fft_corr_reference(positions, boxes, vectors, qvector, timesteps, dt, spacing):
+    """independent numpy implementation of what vector_fft_corr documents (docs/vectors.md section 7, docs/dynamics.md time correlation):
+    per frame F_c(q) = N^-1/2 sum_i v_ic exp(-i q.r_i), L = qhat (qhat . F), T = F - L on the 8-decimal tables, S = |.|^2, averages over equal
+    rounded |q|; per wave vector the origin-averaged (evenly spaced frames) or first-origin (otherwise) normalised autocorrelation."""
+    import numpy as np
+    Tn, N, d = vectors.shape
+    Qn = len(qvector)
+    r8 = lambda x: np.round(x, 8)
+    X = {H: np.zeros((Tn, Qn, d), dtype=complex) for H in HEADERS}
+    qtab = None
+    spectra = None
+    for t in range(Tn):
+        qv = 2 * np.pi * qvector.astype(float) / boxes[t][None, :]
+        qn = np.sqrt((qv ** 2).sum(axis=1))
+        F = np.zeros((Qn, d), dtype=complex)
+        for n_ in range(Qn):
+            ph = np.exp(-1j * (positions[t] @ qv[n_]))
+            F[n_] = (ph[:, None] * vectors[t]).sum(axis=0) / np.sqrt(N)
+        Sq = (np.abs(F) ** 2).sum(axis=1)
+        qv, qn, F, Sq = r8(qv), r8(qn), r8(F.real) + 1j * r8(F.imag), r8(Sq)
+        qh = qv / qn[:, None]
+        L = qh * (qh * F).sum(axis=1)[:, None]
+        Tr = F - L
+        SL, ST = r8((np.abs(L) ** 2).sum(axis=1)), r8((np.abs(Tr) ** 2).sum(axis=1))
+        L, Tr = r8(L.real) + 1j * r8(L.imag), r8(Tr.real) + 1j * r8(Tr.imag)
+        X["FFT"][t], X["L_FFT"][t], X["T_FFT"][t] = F, L, Tr
+        if t == 0:
+            qtab = np.column_stack([qv, qn])
+        keys = sorted(set(qn.tolist()))
+        ave = np.array([[kq] + [float(np.mean([col[n_] for n_ in range(Qn) if qn[n_] == kq])) for col in (Sq, ST, SL)] for kq in keys])
+        if spectra is None:
+            spectra = ave.copy()
+        elif spectra.shape != ave.shape:
+            return None                          # number of distinct |q| differs between frames: outside the precondition
+        else:
+            spectra = spectra + ave
+    spectra = spectra / Tn
+    tcs = {}
+    for H in HEADERS:
+        out = np.zeros((Qn, Tn))
+        for n_ in range(Qn):
+            A_ = X[H][:, n_, :]
+            C = np.zeros(Tn)
+            for k in range(Tn):
+                if spacing == "linear":
+                    C[k] = sum((A_[n0 + k] * np.conj(A_[n0])).sum().real for n0 in range(Tn - k)) / (Tn - k)
+                else:
+                    C[k] = (A_[k] * np.conj(A_[0])).sum().real
+            if abs(C[0]) < 1e-6:
+                return None                      # lag-zero correlation (nearly) zero: outside the precondition
+            out[n_] = C / C[0]
+        tcs[H] = out
+    tcol = (np.asarray(timesteps) - timesteps[0]) * dt
+    return dict(qtab=qtab, spectra=spectra, tcs=tcs, t=tcol)
+
+
+def _replay_fft_corr(case, clause, model, seed):
+    import importlib
+    import os
+    import random
+    import shutil
+    import tempfile
+
+    import numpy as np
+    V = importlib.import_module(MOD)
+    RU = importlib.import_module("PyMatterSim.reader.reader_utils")
+    import pandas as pd
+    d = int(case[2])
+    spacing = case.split("/")[1]
+    default_name = case.endswith("default-name")
+    rng = random.Random(seed)
+    tmp = tempfile.mkdtemp(prefix="pyvc-c15-")
+    cwd = os.getcwd()
+    tried = 0
+    try:
+        os.chdir(tmp)
+        for trial in range(60):
+            first = trial == 0 and model.get("T") is not None
+            if first:
+                Tn = max(2 if spacing == "linear" else 1, min(int(_fr(model.get("T"), 3)), 6))
+                N = max(1, min(int(_fr(model.get("N"), 3)), 8))
+                Qn = max(1, min(int(_fr(model.get("Q"), 2)), 5))
+            else:
+                Tn = rng.choice([2, 3, 4, 6] if spacing == "linear" else [1, 2, 3, 5])
+                N = rng.choice([1, 3, 8])
+                Qn = rng.choice([1, 2, 4])
+            if spacing == "linear":
+                ts0, h = rng.choice([0, 0, 500]), rng.choice([1, 100])
+                ts = [ts0 + j * h for j in range(Tn)]
+            elif Tn <= 2:
+                ts = [rng.choice([0, 7]) + 3 * j for j in range(Tn)]      # one or two frames: no common spacing exists only for T = 1
+                if Tn == 2:
+                    continue
+            else:
+                ts = [rng.choice([0, 10])]
+                for j in range(1, Tn):
+                    ts.append(ts[-1] + 2 ** (j - 1) * rng.choice([1, 10]))
+                if len(set(np.diff(ts).tolist())) == 1:
+                    continue
+            dt = rng.choice([0.002, 0.01, 1.0])
+            box0 = np.array([rng.uniform(4, 9) for _ in range(d)])
+            boxes = [box0 * (1.0 if trial % 3 else rng.uniform(0.9, 1.1)) for _ in range(Tn)]
+            positions = [np.array([[rng.uniform(0, boxes[t][c]) for c in range(d)] for _ in range(N)]) for t in range(Tn)]
+            vectors = np.array([[[rng.uniform(-2, 2) for _ in range(d)] for _ in range(N)] for _ in range(Tn)])
+            if trial % 4 == 1:
+                vectors[:] = vectors[0][None]          # the same field in every frame
+            qs = []
+            while len(qs) < Qn:
+                q = tuple(rng.randint(-3, 3) for _ in range(d))
+                if any(q) and q not in qs:
+                    qs.append(q)
+            if trial % 3 == 0 and Qn >= 2:
+                qs[1] = tuple(-x for x in qs[0])       # equal |q| (exercises the average over equal wave numbers)
+            qvector = np.array(qs, dtype=int)
+            ref = fft_corr_reference(positions, boxes, vectors, qvector, ts, dt, spacing)
+            if ref is None:
+                continue
+            snaps = [RU.SingleSnapshot(timestep=ts[t], nparticle=N, particle_type=np.ones(N, dtype=int), positions=positions[t].copy(),
+                                       boxlength=boxes[t].copy(), boxbounds=np.column_stack([np.zeros(d), boxes[t]]), realbounds=None,
+                                       hmatrix=np.diag(boxes[t])) for t in range(Tn)]
+            S = RU.Snapshots(nsnapshots=Tn, snapshots=snaps)
+            keep_v, keep_q = vectors.copy(), qvector.copy()
+            of = "" if default_name else f"corr{trial}"
+            tried += 1
+            inputs = {"timesteps": ts, "dt": dt, "boxlengths": [b.tolist() for b in boxes], "positions": [p.tolist() for p in positions],
+                      "vectors": keep_v.tolist(), "qvector": keep_q.tolist()}
+            before = set(os.listdir(tmp))
+            try:
+                got = V.vector_fft_corr(S, qvector, vectors, dt=dt, outputfile=of) if not default_name else V.vector_fft_corr(S, qvector, vectors, dt=dt)
+            except Exception as ex:
+                return {"ran": True, "failed": True, "searched": tried, "from_model": first, "inputs": inputs, "detail": f"raises {type(ex).__name__}: {ex}"}
+            bad = None
+            tol = 5e-7
+            if not isinstance(got, dict) or list(got.keys()) != HEADERS:
+                bad = f"returned keys {list(got.keys()) if isinstance(got, dict) else type(got).__name__}, expected {HEADERS}"
+            for H in ([] if bad else HEADERS):
+                df = got[H]
+                vals = np.asarray(df.values, dtype=float)
+                if vals.shape != (Qn, d + 1 + Tn):
+                    bad = f"{H}: frame of shape {vals.shape}, expected ({Qn}, {d + 1 + Tn}) = one row per wave vector, q0..q{d - 1}, q and one column per lag"
+                elif list(df.columns[:d + 1]) != [f"q{c}" for c in range(d)] + ["q"]:
+                    bad = f"{H}: leading columns {list(df.columns[:d + 1])}"
+                elif np.abs(np.array([float(x) for x in df.columns[d + 1:]]) - ref["t"]).max() > 1e-9 * max(1.0, np.abs(ref["t"]).max()):
+                    bad = f"{H}: lag column labels {list(df.columns[d + 1:])} are not the time axis (ts_k - ts_0) dt = {ref['t'].tolist()}"
+                elif np.abs(vals[:, :d + 1] - ref["qtab"]).max() > 3e-8:
+                    bad = f"{H}: q columns {vals[:, :d + 1].tolist()} differ from the first frame's q table {ref['qtab'].tolist()}"
+                elif not np.all(np.isfinite(vals)):
+                    bad = f"{H}: non-finite entries {vals.tolist()}"
+                elif np.abs(vals[:, d + 1:] - ref["tcs"][H]).max() > tol:
+                    n_, k_ = np.unravel_index(np.argmax(np.abs(vals[:, d + 1:] - ref["tcs"][H])), ref["tcs"][H].shape)
+                    bad = (f"{H}: wave vector {int(n_)}, lag {int(k_)}: {vals[n_, d + 1 + k_]!r}, but the normalised autocorrelation of the {H} columns "
+                           f"of that wave vector over the frames is {ref['tcs'][H][n_, k_]!r}")
+                elif np.abs(vals - np.round(vals, 8)).max() > 1e-12:
+                    bad = f"{H}: values are not rounded to 8 decimals"
+                else:
+                    path = of + "." + H + ".npy"
+                    if not os.path.exists(path):
+                        bad = f"{H}: file {path} was not written"
+                    elif not np.array_equal(np.load(path), vals):
+                        bad = f"{H}: saved array differs from the returned frame"
+                if bad:
+                    break
+            if bad is None:
+                path = of + ".spectra.csv"
+                if not os.path.exists(path):
+                    bad = f"spectra file {path} was not written"
+                else:
+                    back = pd.read_csv(path)
+                    if list(back.columns) != AVE_COLS or back.values.shape != ref["spectra"].shape:
+                        bad = f"spectra file: columns {list(back.columns)}, shape {back.values.shape}, expected {AVE_COLS} x {ref['spectra'].shape[0]} rows"
+                    elif np.abs(back.values - ref["spectra"]).max() > 1e-7:
+                        bad = f"spectra file {back.values.tolist()} is not the frame average of the per-frame averaged tables {ref['spectra'].tolist()}"
+            if bad is None:
+                extra = sorted(set(os.listdir(tmp)) - before - {of + ".spectra.csv"} - {of + "." + H + ".npy" for H in HEADERS})
+                if extra:
+                    bad = f"unexpected files written: {extra} (documented: the spectra csv and one npy file per mode)"
+            if bad is None and not (np.array_equal(keep_v, vectors) and np.array_equal(keep_q, qvector)
+                                    and all(np.array_equal(positions[t], snaps[t].positions) for t in range(Tn))):
+                bad = "an input array was modified"
+            if bad:
+                return {"ran": True, "failed": True, "searched": tried, "from_model": first, "inputs": inputs, "detail": bad}
+    finally:
+        os.chdir(cwd)
+        shutil.rmtree(tmp, ignore_errors=True)
+    return {"ran": True, "failed": False, "searched": tried, "detail": "real code satisfies every clause on the seeded inputs"}
+
+
+UNITS = [ParticipationRatio(), LocalAlignment(), PhaseQuotient(), DivergenceCurl(), Vibrability(), VectorDecompositionSq(), VectorFftCorr()]
 # callee contracts of other properties used at call sites: their units are re-verified with this check
 from contracts.common import callee_units as _callee_units   # noqa: E402
 UNITS = UNITS + _callee_units([('C02', None), ('C05', {'read_neighbors'}), ('C13', {'conditional_sq'})], UNITS)
 
+
+def _time_correlation_callee():
+    """the cases of the C14 unit whose contract vector_fft_corr uses at its call site: rank-2 complex condition (T, d), evenly and
+    unevenly spaced frames (the whole C14 unit has 28 cases; `./check C14` runs them all)"""
+    from contracts import C14
+
+    class TimeCorrelationCallee(C14.TimeCorr):
+        def cases(self):
+            return ["rank2/complex/linear", "rank2/complex/log"]
+    return TimeCorrelationCallee()
+
+
+UNITS = UNITS + [_time_correlation_callee()]
+
 MANIFEST = {
-    "text": "Six functions of PyMatterSim/static/vector.py, real ASTs, symbolic particle number N, coordination numbers CN_i, mode number K and wave-vector number Q, d in {2,3}, every clause at an arbitrary symbolic index: participation_ratio = (sum|e|^2)^2/(N sum|e|^4), in [1/N,1] for e != 0 (two Cauchy-Schwarz type facts proved by induction over N), invariant under e -> c e (second symbolic run of the real body); local_vector_alignment_i = mean over the neighbour list of e_i.e_j; phase_quotient = sum e_i.e_j / sum|e_i.e_j| and in [-1,1] (triangle inequality by two nested inductions); divergence_i / curl_i = neighbour averages of D_ij.(u_j-u_i) / D_ij x (u_j-u_i) with D the minimum image of remove_pbc (nested symbolic loops summarised and checked inductively), 2-D returns the divergence only; vibrability_i = sum_l |e_li|^2/omega_l^2 and the saved array is the returned one; vector_decomposition_sq: L_FFT = round8(qhat (qhat.F)), T_FFT = round8(F - L), Sq_L/Sq_T = round8(|L|^2/|T|^2), transform columns kept, L parallel to q, L + T = F, qhat.T = (1-|qhat|^2)(qhat.F), |L|^2+|T|^2-|F|^2 = 2(|qhat|^2-1)|qhat.F|^2 (so S = S_L + S_T whenever |qhat| = 1), averaged frame = group means over equal q, csv = averaged frame; no input array is written. On the unfixed repository vector_decomposition_sq raises for every input (in-place division of the read-only DataFrame.values array, pandas 3): exc-free fails with a failing replay; with design_notes/C15.fix-1.diff every obligation is proved.",
-    "note": "floats as reals (A1); callee contracts of read_neighbors (C05), remove_pbc (C02, proved there), conditional_sq (C13) used at the call sites; induction rule over the upper limit of Σ-terms; assumed np.cross/open/pandas contracts; vector_fft_corr is not under contract (pandas layer outside the model); the Pythagorean identity is exact only for |qhat| = 1, the 8-decimal rounding of the q columns by conditional_sq is not decided",
+    "text": "Seven functions of PyMatterSim/static/vector.py, real ASTs, symbolic particle number N, coordination numbers CN_i, mode number K and wave-vector number Q, d in {2,3}, every clause at an arbitrary symbolic index: participation_ratio = (sum|e|^2)^2/(N sum|e|^4), in [1/N,1] for e != 0 (two Cauchy-Schwarz type facts proved by induction over N), invariant under e -> c e (second symbolic run of the real body); local_vector_alignment_i = mean over the neighbour list of e_i.e_j; phase_quotient = sum e_i.e_j / sum|e_i.e_j| and in [-1,1] (triangle inequality by two nested inductions); divergence_i / curl_i = neighbour averages of D_ij.(u_j-u_i) / D_ij x (u_j-u_i) with D the minimum image of remove_pbc (nested symbolic loops summarised and checked inductively), 2-D returns the divergence only; vibrability_i = sum_l |e_li|^2/omega_l^2 and the saved array is the returned one; vector_decomposition_sq: L_FFT = round8(qhat (qhat.F)), T_FFT = round8(F - L), Sq_L/Sq_T = round8(|L|^2/|T|^2), transform columns kept, L parallel to q, L + T = F, qhat.T = (1-|qhat|^2)(qhat.F), |L|^2+|T|^2-|F|^2 = 2(|qhat|^2-1)|qhat.F|^2 (so S = S_L + S_T whenever |qhat| = 1), averaged frame = group means over equal q, csv = averaged frame; vector_fft_corr (symbolic T frames, N particles, Q wave vectors, d in {2,3}, evenly and unevenly spaced timesteps, every argument of the two callee calls a named call-site obligation): the frame loop keeps the written invariant spectra = sum of the per-frame averaged tables and vectors_fft = the per-frame tables (init/step from executions of the real body), the csv outputfile.spectra.csv holds their frame average; for each header H in {FFT, T_FFT, L_FFT} the wave-vector loop keeps cal_data[:, j] = time_correlation(X_{H,j}).time_corr for j < k (X_{H,j} = the (T, d) complex array of that header's columns of wave vector j over the frames, time_correlation = the C14 contract), and the returned dict has exactly the three keys, each a frame with one row per wave vector: q0..q<d-1>, q of the first frame's table and one column per lag k = round8 of the callee's time_corr[k], lag columns labelled by the callee's time axis (ts_k - ts_0) dt, the same values in outputfile.H.npy; no input array is written. Before the fix commit e113e6a vector_decomposition_sq (and vector_fft_corr through it) raised for every input (in-place division of the read-only DataFrame.values array, pandas 3): exc-free failed with a failing replay; on the repaired tree every obligation is proved.",
+    "note": "floats as reals (A1); callee contracts of read_neighbors (C05), remove_pbc (C02, proved there), conditional_sq (C13) used at the call sites; induction rule over the upper limit of Σ-terms; assumed np.cross/open/pandas contracts incl. the wide-frame model of pyvc/libext/C15.py (concat(axis=1) only for identical indexes, checked as an obligation); vector_fft_corr requires the same number of distinct |q| in every frame and non-zero lag-zero correlations, its per-frame tables are the (uninterpreted) results of vector_decomposition_sq; the Pythagorean identity is exact only for |qhat| = 1, the 8-decimal rounding of the q columns by conditional_sq is not decided",
 }
